@@ -99,6 +99,10 @@ func sources() []source {
 		{name: "value-wrapper", expr: "val"},
 		{name: "method-value-result", expr: "st.Val"},
 		{name: "subscript", expr: `m["k"]`},
+		{name: "list-joined", expr: `l|join:","`},
+		{name: "list-first", expr: `l|first`},
+		{name: "any-list-joined", expr: `la|join:"+"`},
+		{name: "map-value-default", expr: `e|default:m.k`},
 		{name: "ptr-stringer-slice-item", expr: "pts.0"},
 		{name: "ptr-stringer-field", expr: "pp.T"},
 		{name: "ptr-stringer-iteration", wrap: func(g *gen, inner func(e string) string) string {
@@ -281,6 +285,9 @@ func sinks() []sink {
 		{"filter-tag", func(e string) string { return "{% filter lower %}{{ " + e + " }}{% endfilter %}" }},
 		{"print-lower", func(e string) string { return "{{ " + e + "|lower }}" }},
 		{"filter-tag-param", func(e string) string { return "{% filter default:" + atom(e) + " %}{% endfilter %}" }},
+		{"filter-tag-param-join", func(e string) string { return "{% filter default:l|join:\",\" %}{% endfilter %}{{ " + e + " }}" }},
+		{"filter-tag-param-first", func(e string) string { return "{% filter default:la|first %}{% endfilter %}{{ " + e + " }}" }},
+		{"filter-tag-param-list", func(e string) string { return "{% filter default:l %}{% endfilter %}{{ " + e + " }}" }},
 		{"widthratio-noise", func(e string) string { return "{% widthratio 1 2 100 %}{{ " + e + " }}" }},
 	}
 }
